@@ -256,7 +256,7 @@ def assign_view(ex, view, v, line):
             new_row = ex.fresh(parent.name + '_sl', old_row.sort)
             j = ex.fresh('j_sl', INT)
             inr = tm.and_(tm.le(view.offset, j), tm.lt(j, tm.add(view.offset, to_term(view._length))))
-            ex.assume(tm.forall([j], tm.ite(inr, tm.eq(tm.select(new_row, j), tm.select(v.term, tm.sub(j, view.offset))),
+            ex.assume_fact(tm.forall([j], tm.ite(inr, tm.eq(tm.select(new_row, j), tm.select(v.term, tm.sub(j, view.offset))),
                                             tm.eq(tm.select(new_row, j), tm.select(old_row, j)))))
             parent.term = _store_path(parent.term, view.fixed, new_row)
             return
@@ -272,7 +272,7 @@ def assign_view(ex, view, v, line):
         off = view.offset if view.offset is not None else tm.mk_int(0)
         inr = tm.and_(tm.le(off, j), tm.lt(j, tm.add(off, to_term(view._length))))
         val = coerce_elem(ex, parent, v, line)
-        ex.assume(tm.forall([j], tm.ite(inr, tm.eq(tm.select(new_row, j), val),
+        ex.assume_fact(tm.forall([j], tm.ite(inr, tm.eq(tm.select(new_row, j), val),
                                         tm.eq(tm.select(new_row, j), tm.select(old_row, j)))))
         parent.term = _store_path(parent.term, view.fixed, new_row)
         return
@@ -319,13 +319,22 @@ def pointwise(ex, shape0, name, elem, fn_of_index):
     r = Arr(ex.fresh(name, tm.ArraySort(INT, elem)), [shape0], elem, 'ndarray', name)
     j = ex.fresh('j_' + name, INT)
     body = tm.eq(tm.select(r.term, j), fn_of_index(j))
-    ex.assume(tm.forall([j], tm.implies(tm.and_(tm.le(tm.mk_int(0), j), tm.lt(j, to_term(shape0))), body)))
+    ex.assume_fact(tm.forall([j], tm.implies(tm.and_(tm.le(tm.mk_int(0), j), tm.lt(j, to_term(shape0))), body)))
     return r
 
 
 def binop(ex, op, a, b, line):
     def f(x, y):
         return ex.binop(op, x, y)
+    if isinstance(a, Arr) and isinstance(b, Arr) and a.ndim == 2 and b.ndim == 2:
+        for d in range(2):
+            ex.oblige('bounds', tm.eq(to_term(a.shape[d]), to_term(b.shape[d])), label='broadcast', line=line,
+                      note='elementwise operands have equal shape')
+        r = Arr(ex.fresh('ew2', tm.ArraySort(INT, tm.ArraySort(INT, REAL))), list(a.shape), REAL, 'ndarray', 'ew2')
+        i, j = ex.fresh('i_ew2', INT), ex.fresh('j_ew2', INT)
+        ex.assume_fact(tm.forall([i, j], tm.eq(tm.select(tm.select(r.term, i), j),
+                                          tm.to_real(f(tm.select(tm.select(a.term, i), j), tm.select(tm.select(b.term, i), j))))))
+        return r
     if isinstance(a, Arr) and isinstance(b, Arr):
         if a.ndim != 1 or b.ndim != 1:
             raise Unsupported('elementwise op on rank>1 arrays (line %s)' % line)
